@@ -15,6 +15,7 @@ package criteria_mixing
 //@   property C18 C07 C20 C09 C01
 //@   fnparam generator ensures 0.0 <= result && result < 1.0
 //@   requires len(params.Criteria) >= 2
+//@   nopanic
 //@   ensures [two_distinct] exists i int, j int :: 0 <= i && i < len(params.Criteria) && 0 <= j && j < len(params.Criteria) && i != j
 //@             && result.c1 == params.Criteria[i] && result.c2 == params.Criteria[j]
 
@@ -109,7 +110,7 @@ package criteria_mixing
 
 // ---- registered names (what a request must say to select this object; what error messages list)
 //@ func (*CriteriaMixing).Identifier
-//@   property C07 C18 C20
+//@   property C07 C18 C20 C01 C03 C04 C05 C06 C08 C09 C11 C12 C13 C14 C15 C16 C17 C19
 //@   nopanic
 //@   ensures [name] result == "criteriaMixing"
 
